@@ -1,7 +1,7 @@
 """C07 - unauthorized clients get no replication and only independent events; complete state on authorization."""
 import os
 import sys
-from common import VERIF
+from common import VERIF, run_lines, harness_bin
 from simcheck import sim_check
 
 sys.path.insert(0, os.path.join(VERIF, "gen"))
@@ -44,6 +44,23 @@ def premap_scripts(rng, tier):
     return out
 
 
+def backend_mismatch(rep, rng, tier):
+    """implementation only, through the REAL example backend (the request to disconnect is carried out by the backend's own
+    system in ServerSet::SendPackets): a client with a differing protocol between ticks"""
+    import backendx
+    n = 16 if tier == "quick" else 300
+    cases = [backendx.gen_mismatch(rng) for _ in range(n)]
+    lines = ["backendx " + "/".join(st) for st, _ in cases]
+    fails = []
+    for l, o, (_, sent) in zip(lines, run_lines(harness_bin("kernels"), lines, shards=min(8, len(lines))), cases):
+        why = backendx.judge_mismatch(o, sent)
+        if why:
+            fails.append(dict(problem=dict(prop="C07", why=why, implementation=o[:600]), script=[l]))
+    rep.cov["backend_mismatch_runs"] = dict(cases=n, rule="real server + a matching and a mismatching client over the example backend, default protocol check, manual ticks slower than the 20 ms frames, broadcasts in arbitrary frames")
+    rep.cov["evaluations"] = rep.cov.get("evaluations", 0) + n
+    return fails
+
+
 def run(tier, seed, replay):
     kws = [dict(auth="custom", events=True), dict(auth="proto", events=True, nclients=2), dict(auth="proto", events=True, nclients=3, weights=dict(session=0.6)),
            dict(auth="custom", policy="white", events=True), dict(auth="none", events=True), dict(auth="proto", nclients=2, sessions=True)]
@@ -53,4 +70,4 @@ def run(tier, seed, replay):
                      extra_assumptions=["all three authorization methods are exercised; under the default protocol check the moment of authorization is an oracle input of the model (taken from the observed run), "
                                         "the oracle checks that exactly the clients whose hash matches are authorized and that a mismatching client gets the notification together with a disconnect request; "
                                         "the decision function itself is proved under C14"],
-                     model_name="RV.Repl.Sys + RV.Events.Remote")
+                     model_name="RV.Repl.Sys + RV.Events.Remote", extra_bins=("kernels",), extra_oracle=backend_mismatch)
